@@ -163,10 +163,8 @@ def run(run_, ctx):
     fmax = [f for f in pc.fns if f.def_ == "max_size::max"]
     if len(fmax) == 1:
         ls = sorted(summ.lines(summ.summarize(F, fmax[0])))
-        okm = ls in (["if Gt(arg1, arg2) == False: - => arg2", "if Gt(arg1, arg2) == True: - => arg1"],
-                     ["if Ge(arg1, arg2) == False: - => arg2", "if Ge(arg1, arg2) == True: - => arg1"],
-                     ["if Lt(arg1, arg2) == False: - => arg1", "if Lt(arg1, arg2) == True: - => arg2"],
-                     ["if Le(arg1, arg2) == False: - => arg1", "if Le(arg1, arg2) == True: - => arg2"])
+        okm = ls in (["if arg1 <= arg2: - => arg2", "if arg2 < arg1: - => arg1"],
+                     ["if arg1 < arg2: - => arg2", "if arg2 <= arg1: - => arg1"])
         run_.check(okm, "H", "max", "helper `max` does not return the larger of its arguments on both paths", fmax[0].where(), found=ls)
     else:
         run_.bad("H", "max", "helper not found")
@@ -186,7 +184,7 @@ def run(run_, ctx):
         # it must use n only through ==0 and leading_zeros (so the 129 samples cover all 65 classes)
         ls = summ.lines(summ.summarize(F, f))
         uses = " ".join(ls)
-        if re.search(r"arg1", re.sub(r"leading_zeros\(arg1\)|Eq\(arg1, 0\)", "", uses)):
+        if re.search(r"arg1", re.sub(r"leading_zeros\(arg1\)|0 [!=]= arg1", "", uses)):
             bad.append("varint_size uses its argument other than through `== 0` and leading_zeros(): class argument does not apply")
         run_.check(not bad, "H", "varint_size", bad[0] if bad else "= vlen(n) for n = 0 and every bit length 1..64 (%d folded evaluations)" % len(cases), f.where(), found=bad[:3])
     else:
